@@ -22,6 +22,8 @@
 
 #include "mp/nl-reader.h"
 
+#include <climits>
+
 namespace {
 enum {
   USE_VBTOL_OPTION = 1,
@@ -189,6 +191,10 @@ void mp::internal::TextReader<Locale>::ReadHeader(NLHeader &header) {
   for (int i = 0; i < header.num_ampl_options; ++i) {
     double tmp;
     if (!ReadOptionalDouble(tmp))
+      break;
+    // The conversion below is undefined for values outside the range of long.
+    if (!(tmp > static_cast<double>(LONG_MIN) &&
+          tmp < -static_cast<double>(LONG_MIN)))
       break;
     header.ampl_options[i] = (long)tmp;
     if (header.ampl_options[i] != tmp)
